@@ -405,6 +405,8 @@ def gen_recipes(ctx):
     #     ArrayLoader, sanitize_records+aggregate_records and sanitize_pixels pipelines into create_from_unordered,
     #     create.append, rename_chroms); PairixAggregator needs pypairix, which is not installed
     R += G.gen_binners(rng, thorough)
+    # --- records whose mates lie on contigs absent from the bin table (text loaders, record pipeline, tabix)
+    R += G.gen_absent_contigs(rng, thorough)
     # --- invalid input: single out-of-range ids; refusal expected, never an invalid file
     R += G.gen_invalid_grid(rng, thorough)
     # --- producer options with valid input (each must leave a valid collection)
@@ -479,9 +481,9 @@ def gen_recipes(ctx):
         s5 = {"op": "zoomify", "out": "z.mcool", "inputs": [["x.cool", ""]], "resolutions": [b, 2 * b, 4 * b], "base_resolutions": [b],
               "chunksize": rng.choice([2, 100]), "opts": {"columns": ["count", "w"]}}
         R.append([s1, s2, s3, s4, s5])
-    for _ in range(7 * mul):
+    for _ in range(5 * mul):
         R.append([G.gen_load(rng, "l.cool")])
-    for _ in range(3 * mul):
+    for _ in range(1 * mul):
         R.append([G.gen_cload(rng, "p.cool")])
     for _ in range(8 * mul):
         widths = G.rand_widths(rng)
@@ -613,6 +615,12 @@ def create_model_expr(step):
         chroms = [ci for ci, ws in enumerate(step["widths"]) for _ in ws]
         lit = C.lst([C.lst([C.tup(C.tup(C.z(a), C.z(b_)), C.z(v)) for a, b_, v in G.binner_expected(step)])])
         return f"create_chunked {C.z(len(step['widths']))} {C.zl(chroms)} {lit} true"
+    if step["op"] == "cload" and step.get("exact"):
+        # `cload pairs` on in-range positions: the counting model of the retained records
+        blocks = G.cload_blocks(step)
+        chroms = [c for blk in blocks for (c, _, _) in blk]
+        lit = C.lst([C.lst([C.tup(C.tup(C.z(a), C.z(b_)), C.z(v)) for a, b_, v in G.cload_expected(step)])])
+        return f"create_chunked {C.z(len(blocks))} {C.zl(chroms)} {lit} {C.b(step['symm'])}"
     if step["op"] != "create" or step["input"] not in ("frame", "dict", "ordered"):
         return None
     chunks = step["chunks"]
@@ -657,7 +665,7 @@ def check_recipe(ctx, recipe, pending, tag, created=None):
         # invalid input: the model (validate_pixels with boundscheck) predicts a refusal; if the producer writes a
         # file nevertheless, that file is held to the whole schema below
         ctx.case(case, nontrivial=True, kind="e2e-refuse:" + kinds)
-        ctx.compare("producer outcome on an out-of-range bin id", case, "refused" if outcome.startswith("error:") else outcome, "refused")
+        ctx.compare("producer outcome on invalid input (refusal expected)", case, "refused" if outcome.startswith("error:") else outcome, "refused")
         created = None
     elif outcome != "ok":
         ctx.case(case, nontrivial=False, kind="e2e-error:" + kinds)
